@@ -310,7 +310,9 @@ class EventManager(Runnable):
 
                 already = self.state.lookup_oid(self.side, event.oid)
                 if already:
-                    changed = already[self.side].hash != event.hash or already[self.side].path != event.path
+                    from cloudsync.sync.state import EXISTS         # pylint: disable=import-outside-toplevel
+                    changed = already[self.side].hash != event.hash or already[self.side].path != event.path \
+                        or already[self.side].exists != EXISTS
                     if not changed:
                         # ignore from_walk events where nothing changed
                         return
